@@ -5,10 +5,6 @@ from vlib import hx, unhx
 
 STATUS_CODE = {"Succeeded": 0, "Failed": 1, "Cancelled": 2}
 K_BUILD, K_LANE, K_TASK, K_CFD = b"LLBUILD_BUILD_ID", b"LLBUILD_LANE_ID", b"LLBUILD_TASK_ID", b"LLBUILD_CONTROL_FD"
-# False: the shadowing of LLBUILD_TASK_ID / LLBUILD_CONTROL_FD by a requested or inherited entry is recorded as a note
-# (the code does it on purpose-looking setIfMissing calls; Coq witness c16_env_task_id_overridable_refuted); True: VIOLATION.
-REPORT_ID_SHADOWING = False
-
 def drv_env():
     # the driver's own environment = the "inherited" base when the queue is created with environment == nullptr
     return {"PATH": "/usr/bin:/bin", "LLBUILD_TEST": "1", "HOME": "/nonexistent", "C16_MARK": "from-environ", "LC_ALL": "C"}
@@ -430,7 +426,7 @@ def run_env(chk, drv, model, ncases):
     environ_list = [("%s=%s" % kv).encode() for kv in E.items()]
     rng = chk.rng
     cases = [gen_env_case(rng) for _ in range(ncases)]
-    # corpus: ids cannot be overridden; TASK_ID can (quirk); duplicates; entries without '='
+    # corpus: ids cannot be overridden (LLBUILD_TASK_ID=outer in the base environment is the witness of the repaired defect a51183e); duplicates; entries without '='
     cases += [dict(req=[(K_LANE, b"bogus"), (K_BUILD, b"bogus"), (b"A", b"req"), (b"A", b"req2")], inherit=True, base=[b"A=base", b"B=base", b"B=base2", b"NOEQ"], control=True, lanes=2),
               dict(req=[], inherit=True, base=[K_TASK + b"=outer", K_CFD + b"=99"], control=True, lanes=1),
               dict(req=[(K_TASK, b"mine")], inherit=False, base=[b"Z=1"], control=False, lanes=1),
@@ -465,32 +461,29 @@ def run_env(chk, drv, model, ncases):
         lane_ok = cd.get(K_LANE, b"").isdigit() and int(cd[K_LANE]) < c["lanes"]
         if not bad and (not lane_ok or not cd.get(K_BUILD, b"").isdigit()):
             bad = ("env-ids", "LLBUILD_LANE_ID=%r LLBUILD_BUILD_ID=%r are not the queue's own (a requested/inherited value won?)" % (cd.get(K_LANE), cd.get(K_BUILD)))
-        want = dict(first_wins([(k, v) for k, v in c["req"] + inh if k not in (K_LANE, K_BUILD)]))
-        shadow = [k for k in (K_TASK, K_CFD) if k in want]
+        IDS = (K_LANE, K_BUILD, K_TASK, K_CFD)
+        supplied = c["req"] + inh
+        want = dict(first_wins([(k, v) for k, v in supplied if k not in IDS]))
         for k, v in want.items():
             if bad: break
-            if k == b"" and v == b"" :
-                continue
-            if k in (K_TASK, K_CFD) and REPORT_ID_SHADOWING:
-                continue
             if cd.get(k) != v:
                 bad = ("env-precedence", "variable %r is %r in the child; requested-over-inherited first-writer-wins gives %r" % (k, cd.get(k), v))
         if not bad:
-            extra = [k for k in cd if k not in want and k not in (K_LANE, K_BUILD, K_TASK, K_CFD)]
+            extra = [k for k in cd if k not in want and k not in IDS]
             if extra:
                 bad = ("env-leak", "the child has variables nobody supplied: %r (inherit=%s)" % (extra, c["inherit"]))
-        if not bad and K_TASK not in cd:
-            bad = ("env-ids", "the child has no LLBUILD_TASK_ID")
-        if not bad and c["control"] and K_CFD not in cd:
-            bad = ("env-ids", "control channel enabled but no LLBUILD_CONTROL_FD in the child")
-        if not bad and not c["control"] and K_CFD in cd and K_CFD not in want:
+        # the per-process ids are the process's own: a hex task id, a descriptor number; never a supplied value
+        tid_ok = (K_TASK in cd and len(cd[K_TASK]) >= 1 and all(ch in b"0123456789abcdef" for ch in cd[K_TASK]) and
+                  (len(cd[K_TASK]) >= 5 or cd[K_TASK] not in [v for k, v in supplied if k == K_TASK]))
+        if not bad and not tid_ok:
+            who = "requested" if K_TASK in dict(c["req"]) else "inherited" if K_TASK in dict(inh) else None
+            bad = ("env-task-id-shadowed", "LLBUILD_TASK_ID in the child is %r%s, not the id of this task" % (cd.get(K_TASK), (", supplied by the %s environment" % who) if who else ""))
+        if not bad and c["control"] and not (cd.get(K_CFD, b"").isdigit() and int(cd[K_CFD]) > 2):
+            bad = ("env-task-id-shadowed", "control channel enabled but LLBUILD_CONTROL_FD in the child is %r, not this process's descriptor" % cd.get(K_CFD))
+        if not bad and not c["control"] and K_CFD in cd:
             bad = ("env-ids", "control channel disabled but LLBUILD_CONTROL_FD=%r in the child" % cd[K_CFD])
-        if shadow:
+        if any(k in (K_TASK, K_CFD) for k, _ in supplied):
             shadow_seen += 1
-            if REPORT_ID_SHADOWING and not bad:
-                k = shadow[0]
-                bad = ("env-task-id-shadowed", "%s in the child is %r, supplied by the %s environment, not the id of this task / its control descriptor" % (
-                    k.decode(), cd.get(k), "requested" if k in dict(c["req"]) else "inherited"))
         chk.count(("env", tuple(c["req"]), c["inherit"], None if c["base"] is None else tuple(c["base"]), c["control"]) if (c["req"] or c["base"]) else None)
         if bad:
             chk.violation(bad[0], bad[1], rp, found_input=True, broken="c16 oracle on the child's environment")
@@ -507,7 +500,6 @@ def run_env(chk, drv, model, ncases):
     ndis = 0
     for (rp, child), m in zip(meta, mo):
         ml = [] if m == "." else [unhx(x) for x in m.split(",")]
-        ml = [x for x in ml if x != b"="] if False else ml
         # the model renders ("", "") as "=", the child's env -0 output shows it as "=" too; empty entries were dropped above
         if [x for x in ml if x != b""] != child:
             ndis += 1
@@ -517,9 +509,7 @@ def run_env(chk, drv, model, ncases):
                               rp2, found_input=False, broken="correspondence: Queue.Env.build_env")
     chk.cov["env_cases"] = len(cases)
     chk.cov["env_cases_matching_model_exactly"] = len(meta) - ndis
-    if shadow_seen:
-        chk.notes["task_id_shadowable"] = ("%d generated cases supplied LLBUILD_TASK_ID / LLBUILD_CONTROL_FD through the requested or inherited environment and the child saw that "
-                                           "value instead of its own id (spawnProcess uses setIfMissing after the inherited entries); Coq witness c16_env_task_id_overridable_refuted" % shadow_seen)
+    chk.cov["env_cases_trying_to_shadow_process_ids"] = shadow_seen
     if cases:
         chk.sample(dict(kind="env", line=lines[-5], child_envp=[x.decode("latin1") for x in (meta[-1][1] if meta else [])][:12]))
 
